@@ -132,6 +132,10 @@ fn main() {
             let path = args.get(2).cloned().unwrap_or_else(|| usage());
             std::process::exit(props::c05::child_main(&path));
         }
+        Some("traverse-child") => {
+            let kind = args.get(2).cloned().unwrap_or_else(|| usage());
+            std::process::exit(props::c16::child_main(&kind));
+        }
         Some("emit-hash") => {
             let path = args.get(2).cloned().unwrap_or_else(|| usage());
             let bytes = std::fs::read(path).unwrap();
